@@ -6,6 +6,6 @@ func init() {
 	c14.RedisCfg = redisCfg
 	c14.RedisCfgFault = redisCfgFault
 	registry["C14"] = entry{run: c14.Run, level: "exploration",
-		rule: "cases = (a) hook verdict cases: auth reject (basic/enhanced, reason codes, v3.1/v3.1.1/v5) with will/retained/follow-up packets; OnSubscribe whole-request reject, per-topic reject, QoS downgrade; OnMsgArrived reject/drop/rewrite/replace over QoS x retain x clear; OnWillPublish edit/replace/drop - after each request the wire and the services are inspected; (b) three recording plugins whose HookWrapper fills every field of server.HookWrapper by reflection, all 6 plugin orders, one scripted session triggering every hook kind; per kind the trace must be repetitions of enter(first)...enter(last) core leave(last)...leave(first). Every case is non-trivial; distinct by case parameters / (order, kind). (c) wrappers for sessions restored at start-up; (d) a session ends while redis refuses a clean-up command: OnSessionTerminated fires once; (e) sessions created vs terminated over take-overs; a new PUBLISH re-using the packet id after a rejected exchange is an event of its own. Plus (f) 33 publications refused one at a time by OnMsgArrived per (version, code) on a broker with server_receive_maximum 3: each is answered like the first, the hook fires once each, and publications nobody objects to are accepted and delivered afterwards.",
+		rule: "cases = (a) hook verdict cases: auth reject (basic/enhanced, reason codes, v3.1/v3.1.1/v5) with will/retained/follow-up packets; OnSubscribe whole-request reject, per-topic reject, QoS downgrade; OnMsgArrived reject/drop/rewrite/replace over QoS x retain x clear; OnWillPublish edit/replace/drop - after each request the wire and the services are inspected; (b) three recording plugins whose HookWrapper fills every field of server.HookWrapper by reflection, all 6 plugin orders, one scripted session triggering every hook kind; per kind the trace must be repetitions of enter(first)...enter(last) core leave(last)...leave(first). Every case is non-trivial; distinct by case parameters / (order, kind). (c) wrappers for sessions restored at start-up; (d) a session ends while redis refuses a clean-up command: OnSessionTerminated fires once; (e) sessions created vs terminated over take-overs; a new PUBLISH re-using the packet id after a rejected exchange is an event of its own. Plus (f) 33 publications refused one at a time by OnMsgArrived per (version, code) on a broker with server_receive_maximum 3: each is answered like the first, the hook fires once each, and publications nobody objects to are accepted and delivered afterwards. The re-authentication of the composition scenario carries data different from the method name.",
 		assumptions: []string{"hooks that rewrite the topic also set IterationOptions.TopicName", "the scripted composition session is sequential, so events of one kind do not interleave"}}
 }
